@@ -292,7 +292,20 @@ func (e *Env) tr(x Expr) Val {
 			}
 			return Val{T: fmt.Sprintf("(forall (%s) %s)", strings.Join(decl, " "), inner), S: "Bool"}
 		}
-		return Val{T: fmt.Sprintf("(exists (%s) %s)", strings.Join(decl, " "), and(append(rng, body)...)), S: "Bool"}
+		inner := and(append(rng, body)...)
+		// trigger for the witness search (the negated goal is a forall): for each
+		// bound variable one application of a spec function that has the bare
+		// variable as an argument
+		var pts []string
+		for _, v := range x.Vars {
+			if t := appWithBareVar(inner, q("qv."+v), g.P.specFuns); t != "" {
+				pts = append(pts, t)
+			}
+		}
+		if len(pts) == len(x.Vars) && len(pts) > 0 {
+			inner = "(! " + inner + " :pattern (" + strings.Join(pts, " ") + "))"
+		}
+		return Val{T: fmt.Sprintf("(exists (%s) %s)", strings.Join(decl, " "), inner), S: "Bool"}
 	case *ESel:
 		// package-qualified name
 		if id, ok := x.X.(*EIdent); ok {
@@ -639,6 +652,60 @@ func idxPatterns(s, v string) []string {
 		out = append(out, term)
 	}
 	return out
+}
+
+// appWithBareVar finds a sub-term "(f a1 ... an)" of s where f is a spec
+// function, some ai is exactly v, no argument contains an ite, and no other
+// quantified variable occurs.
+func appWithBareVar(s, v string, funs map[string]specFun) string {
+	for i := 0; i < len(s); i++ {
+		if s[i] != '(' {
+			continue
+		}
+		j := i + 1
+		for j < len(s) && s[j] != ' ' && s[j] != ')' {
+			j++
+		}
+		name := s[i+1 : j]
+		f, ok := funs[name]
+		if !ok || len(f.args) == 0 || name == "imul" || name == "idx" {
+			continue
+		}
+		// find the end of this application
+		depth, k, inBar := 0, i, false
+		for ; k < len(s); k++ {
+			c := s[k]
+			if c == '|' {
+				inBar = !inBar
+			}
+			if inBar {
+				continue
+			}
+			if c == '(' {
+				depth++
+			} else if c == ')' {
+				depth--
+				if depth == 0 {
+					break
+				}
+			}
+		}
+		if k >= len(s) {
+			return ""
+		}
+		term := s[i : k+1]
+		if strings.Contains(term, "(ite ") {
+			continue
+		}
+		if !(strings.Contains(term, " "+v+" ") || strings.HasSuffix(term, " "+v+")")) {
+			continue
+		}
+		if strings.Count(term, "|qv.") != strings.Count(term, v) {
+			continue // mentions another bound variable
+		}
+		return term
+	}
+	return ""
 }
 
 func isNumeral(t string) bool {
@@ -1383,6 +1450,9 @@ func (g *Gen) call(c *ssa.CallCommon, pos token.Pos, isGo bool) Val {
 	if ct.MayPanic && (g.ct == nil || !g.ct.MayPanic) {
 		g.check("panic", "callee."+sk, "false", "callee "+sk+" is declared maypanic")
 	}
+	for _, u := range ct.Unfold {
+		g.unfoldHints(env, u)
+	}
 	// modifies
 	allTag := ""
 	if ct.ModAll {
@@ -1445,6 +1515,38 @@ func (g *Gen) call(c *ssa.CallCommon, pos token.Pos, isGo bool) Val {
 		g.assume(post.boolOf(en.E))
 	}
 	return r
+}
+
+// unfoldHints states ground instances of the recursive definition of framei
+// (prelude) for the 16 topmost elements of the list: for m = n, n-1, ..., n-15
+//   m > 0  ==> framei(i,R,o,m,B) = fr(framei(i,R,o,m-1,B), elem(m-1))
+//   m <= 0 ==> framei(i,R,o,m,B) = i
+// Each line is an instance of the prelude axioms (with frameiz rewritten to
+// framei by the axiom framei = frameiz), so nothing new is assumed.
+func (g *Gen) unfoldHints(env *Env, u Expr) {
+	c, ok := u.(*ECall)
+	if !ok || c.Fn != "framei" || len(c.Args) != 5 {
+		panic(specErr{"unfold supports framei(init, R, o, n, B) only"})
+	}
+	var a [5]string
+	for i := range a {
+		a[i] = env.tr(c.Args[i]).T
+	}
+	init, R, o, n, B := a[0], a[1], a[2], a[3], a[4]
+	nn := g.define("ufn", "Int", n)
+	for j := 0; j < 16; j++ {
+		m := nn
+		if j > 0 {
+			m = sx("-", nn, fmt.Sprint(j))
+		}
+		m1 := sx("-", nn, fmt.Sprint(j+1))
+		ref := sx("select", R, sx("+", o, m1))
+		ev := sx("ite", sx("=", ref, "0"), "0", sx("select", B, ref))
+		cur := sx("framei", init, R, o, m, B)
+		prev := sx("framei", init, R, o, m1, B)
+		g.assume(implies(sx(">", m, "0"), sx("=", cur, sx("cat", sx("cat", sx("cat", prev, sx("be", ev)), "(single 36)"), sx("le64", sx("blen", sx("be", ev)))))))
+		g.assume(implies(sx("<=", m, "0"), sx("=", cur, init)))
+	}
 }
 
 func ctKind(ct *Contract) string {
